@@ -108,6 +108,7 @@ class C02(common.ModelProperty):
         )
         cfg["edge_classes"] = ["DirectedEdge"]
         cfg["multi"] = False
+        cfg["restarts"] = rng.random() < 0.3
         cfg["weights"] = gen.swarm_weights(rng, KINDS, always=("uni_add",))
         return cfg
 
